@@ -465,3 +465,16 @@ Proof.
   exists w_remap_note, w_remap_target, w_remap_expected. vm_compute.
   repeat split; discriminate.
 Qed.
+
+(* ------------------------------------------------------------------ content replay: refuted *)
+Theorem replay_refuted :
+  exists head_state changes files self,
+    (* the state the replay starts from is a correct description of the original head ... *)
+    note_ok (fun p => if str_eqb p [97] then Some 3 else if str_eqb p [98] then Some 2 else None) self
+            (mkNote (to_authorship_log head_state) [w_s] self) = true
+    (* ... but the note written for the first rebased commit is not ok against that commit *)
+    /\ note_ok files self (mkNote (replay_commit (to_authorship_log head_state) changes) [w_s] self) = false
+    /\ Known_C05_replay true true = true.
+Proof.
+  exists w_head_state, w_first_commit_changes, w_first_commit_files, [99]. vm_compute. repeat split; reflexivity.
+Qed.
